@@ -308,3 +308,10 @@ Theorem C08_coarsen_then_dense_query : forall blocks (c : Index.cooler) k chunks
         (zrange i0 (Z.to_nat (i1 - i0))).
 Proof. exact coarsen_then_dense_query. Qed.
 Print Assumptions C08_coarsen_then_dense_query.
+
+(** the float64 quotient expression of CoolerCoarsener._aggregate that the binary64 theorem above is about is pinned in the source on every run
+    (tools/py2v.py): a reciprocal multiplication or another shortcut is a different computation *)
+From Cooler Require Import Gen.Translated.
+Theorem C08_float_division_source_pins : Gen.float_division_pins_coarsen = true.
+Proof. reflexivity. Qed.
+Print Assumptions C08_float_division_source_pins.
